@@ -251,7 +251,7 @@ impl Property for C17 {
         "C17"
     }
     fn rule(&self) -> &'static str {
-        "case = 1-3 programs (generated well-scoped programs and 9 templates: a read of a global whose only assignment is in a branch not taken, and programs ending in CallStackOverflow / Stackoverflow / Timeout / OutOfMemory / native error / error inside a native->script callback with an open upvalue / success after > threshold garbage / closure with open upvalue left in a global) and either a history of 2-40 steps run(program, budget in {50,400,3000,100000}) / clear / set_memory_limit({24K,64K,400K,4M}) on ONE VM, or a repetition class: the first program run n in {3,17,100,258,300} times with or without clear in between. Oracles: a run directly after clear / set_memory_limit / VM creation is replayed on a new VM with the same limit and budget: observation, dispatched instructions, allocated bytes, next collection threshold, number of collections, value-stack height and the set of globals the host finds defined after the run must be equal; the history executed twice yields identical observation sequences; repetition: every run equals the first (without clear only for programs whose first run succeeded and left the value stack empty). non-trivial = a checked step follows a run that ended in an error or collected, or a repetition with n >= 257; distinct by hash of the decoded case"
+        "case = 1-3 programs (generated well-scoped programs and 10 templates: a read of a global whose only assignment is in a branch not taken, reads of three locals whose only assignments are in a branch not taken before or after a call with 1-4 arguments has used the slots above them, and programs ending in CallStackOverflow / Stackoverflow / Timeout / OutOfMemory / native error / error inside a native->script callback with an open upvalue / success after > threshold garbage / closure with open upvalue left in a global) and either a history of 2-40 steps run(program, budget in {50,400,3000,100000}) / clear / set_memory_limit({24K,64K,400K,4M}) on ONE VM, or a repetition class: the first program run n in {3,17,100,258,300} times with or without clear in between. Oracles: a run directly after clear / set_memory_limit / VM creation is replayed on a new VM with the same limit and budget: observation, dispatched instructions, allocated bytes, next collection threshold, number of collections, value-stack height and the set of globals the host finds defined after the run must be equal; the history executed twice yields identical observation sequences; repetition: every run equals the first (without clear only for programs whose first run succeeded and left the value stack empty). non-trivial = a checked step follows a run that ended in an error or collected, or a repetition with n >= 257; distinct by hash of the decoded case"
     }
     fn assumptions(&self) -> Vec<String> {
         vec![
